@@ -41,6 +41,13 @@ def _work(task: Task) -> Dict[str, Any]:
         }
 
 
+def _child(conn: Any, task: Task) -> None:
+    try:
+        conn.send(_work(task))
+    finally:
+        conn.close()
+
+
 def n_procs() -> int:
     try:
         n = int(os.environ.get("VERIF_PROCS", "0"))
@@ -62,25 +69,52 @@ def run_tasks(rep: Reporter, tasks: Sequence[Task], procs: int = 0) -> None:
                       f"trans={r.get('transitions')} closed={r.get('closed')} err={bool(r.get('error'))}", flush=True)
             rep.add_model(r)
         return
-    import concurrent.futures as cf
+    from multiprocessing.connection import wait as mp_wait
 
+    # One fresh (spawned) process per task: memory and XLA executables are returned to the system after every task,
+    # and a worker killed from outside (e.g. by the kernel's OOM killer) is noticed - its task is reported as an
+    # error - instead of leaving the run waiting forever.  (mp.Pool hangs on a killed worker; ProcessPoolExecutor
+    # with max_tasks_per_child deadlocks on Python 3.12.1.)
     ctx = mp.get_context("spawn")
-    # ProcessPoolExecutor (not mp.Pool): a worker killed from outside (e.g. by the kernel's OOM killer) breaks the
-    # pool with an exception instead of leaving the run waiting forever; recycle workers, XLA executables accumulate
-    pending: Dict[Any, Task] = {}
-    with cf.ProcessPoolExecutor(max_workers=procs, mp_context=ctx, max_tasks_per_child=4) as pool:
-        for t in tasks:
-            pending[pool.submit(_work, t)] = t
-        for fut in cf.as_completed(list(pending)):
-            t = pending.pop(fut)
-            try:
-                r = fut.result()
-            except Exception as e:  # noqa: BLE001 - BrokenProcessPool: every unfinished task fails the same way
+    queue = list(tasks)
+    active: Dict[Any, Tuple[Any, Task]] = {}  # parent connection -> (process, task)
+
+    def finish(r: Dict[str, Any]) -> None:
+        if verbose:
+            print(f"  .. {r.get('model')} {r.get('task_s')}s states={r.get('states')} "
+                  f"trans={r.get('transitions')} closed={r.get('closed')} err={bool(r.get('error'))}", flush=True)
+        rep.add_model(r)
+
+    while queue or active:
+        while queue and len(active) < procs:
+            t = queue.pop(0)
+            parent, child = ctx.Pipe(duplex=False)
+            p = ctx.Process(target=_child, args=(child, t), daemon=True)
+            p.start()
+            child.close()
+            active[parent] = (p, t)
+        mp_wait(list(active) + [p.sentinel for p, _ in active.values()], timeout=5.0)
+        for conn in list(active):
+            p, t = active[conn]
+            r = None
+            if conn.poll():
+                try:
+                    r = conn.recv()
+                except (EOFError, OSError):
+                    r = None
+                if r is None and p.is_alive():
+                    continue
+            elif p.is_alive():
+                continue
+            if r is None:  # the process is gone and left no result
                 kw = t[2]
+                p.join(1.0)
                 r = {"model": kw.get("cfg_name") or kw.get("model") or t[1],
-                     "error": f"worker process died ({type(e).__name__}: {e}); the task did not finish"}
-            if verbose:
-                print(f"  .. {r.get('model')} {r.get('task_s')}s states={r.get('states')} "
-                      f"trans={r.get('transitions')} closed={r.get('closed')} err={bool(r.get('error'))}", flush=True)
-            rep.add_model(r)
+                     "error": f"worker process died (exit code {p.exitcode}); the task did not finish"}
+            del active[conn]
+            conn.close()
+            p.join(5.0)
+            if p.is_alive():
+                p.kill()
+            finish(r)
     rep.coverage["per_model"].sort(key=lambda m: str(m.get("model")))
